@@ -49,6 +49,8 @@ type vfC13E2ERun struct {
 	ctx       context.Context
 	cancelLog bool
 	scen      string
+	hold      chan struct{}  // non-nil: the nodes stay silent until it is closed
+	nodes     sync.WaitGroup // requests of this statement the nodes are still handling
 }
 
 func (r *vfC13E2ERun) execLocked() int {
@@ -170,6 +172,11 @@ func vfC13E2EHandler(addr string) func(nc *vfNodeConn, f *vfFrame, q *vfRequest)
 		if delay > 0 {
 			time.Sleep(delay) // a slow node: the caller's deadline / the speculation timer comes first
 			defer close(r.nodeDone)
+		}
+		if r.hold != nil {
+			r.nodes.Add(1)
+			defer r.nodes.Done()
+			<-r.hold // a silent node
 		}
 		if !r.observer {
 			r.mu.Lock()
@@ -356,7 +363,9 @@ func TestVfC13E2E(t *testing.T) {
 		// a statement that is NOT idempotent with a speculative policy and a slow first node
 		// / an idempotent statement whose main execution sits on a slow node that answers with an
 		// error only after a speculative execution elsewhere has delivered the result
-		scen := []string{"plain", "plain", "plain", "plain", "plain", "deadline", "specnonidem", "spec"}[rng.Intn(8)]
+		// / an idempotent statement with a speculative policy whose caller cancels after every execution
+		// was launched and while all nodes are silent: the call must return all the same
+		scen := []string{"plain", "plain", "plain", "plain", "deadline", "specnonidem", "spec", "spec-cancel"}[rng.Intn(8)]
 		r.scen = scen
 		pols := []string{"none", "simple", "expo", "downgrade", "script"}
 		r.polName = pols[rng.Intn(len(pols))]
@@ -416,6 +425,12 @@ func TestVfC13E2E(t *testing.T) {
 			cfgm.K = 1
 			r.delay = 4 * time.Millisecond
 			spec = &SimpleSpeculativeExecution{NumAttempts: 1, TimeoutDelay: 300 * time.Microsecond}
+		case "spec-cancel":
+			cfgm.Idem = true
+			cfgm.K = 1
+			r.hold = make(chan struct{})
+			spec = &SimpleSpeculativeExecution{NumAttempts: 1, TimeoutDelay: 200 * time.Microsecond}
+			ctx, cancel = context.WithCancel(ctx)
 		case "specnonidem":
 			cfgm.Idem = false
 			cfgm.K = 1
@@ -427,6 +442,8 @@ func TestVfC13E2E(t *testing.T) {
 		obs := &vfC13E2EObs{r: r}
 		vfC13E2ERuns.Store(id, r)
 		var rerr error
+		var exec func() error
+		cleanup := func() {}
 		text := fmt.Sprintf("vfc13 %d", id)
 		entries := ""
 		if stmt == "query" {
@@ -439,8 +456,8 @@ func TestVfC13E2E(t *testing.T) {
 				q.Observer(obs)
 			}
 			vfC13E2EByStmt.Store(ExecutableQuery(q), r)
-			rerr = q.Iter().Close()
-			vfC13E2EByStmt.Delete(ExecutableQuery(q))
+			cleanup = func() { vfC13E2EByStmt.Delete(ExecutableQuery(q)) }
+			exec = func() error { return q.Iter().Close() }
 		} else {
 			// ... or from the per-entry flags of a real Batch: all / none / mixed
 			b := s.NewBatch(UnloggedBatch).WithContext(ctx)
@@ -461,17 +478,61 @@ func TestVfC13E2E(t *testing.T) {
 				b.Observer(obs)
 			}
 			vfC13E2EByStmt.Store(ExecutableQuery(b), r)
-			rerr = s.ExecuteBatch(b)
-			vfC13E2EByStmt.Delete(ExecutableQuery(b))
+			cleanup = func() { vfC13E2EByStmt.Delete(ExecutableQuery(b)) }
+			exec = func() error { return s.ExecuteBatch(b) }
+		}
+		hang, stuck := "", false
+		if scen != "spec-cancel" {
+			rerr = exec()
+		} else {
+			resCh := make(chan error, 1)
+			go func() { resCh <- exec() }()
+			// every execution launched and in flight: both nodes hold a request (and stay silent)
+			for t0 := time.Now(); time.Since(t0) < 2*time.Second; time.Sleep(50 * time.Microsecond) {
+				r.mu.Lock()
+				n := r.total
+				r.mu.Unlock()
+				if n >= 2 {
+					break
+				}
+			}
+			r.mu.Lock()
+			r.log = append(r.log, vfC13Ev{Ev: "cancel", X: "cancel"})
+			cancel()
+			r.mu.Unlock()
+			// The call must return.  Event based: once no execution goroutine of the statement is left
+			// nothing can be sent on the results channel any more; if the call has not returned a
+			// grace period after that, it never will.
+			var since time.Time
+		wait:
+			for {
+				select {
+				case rerr = <-resCh:
+					break wait
+				case <-time.After(500 * time.Microsecond):
+				}
+				if strings.Contains(vfGoroutineDump(), "(*queryExecutor).run") {
+					since = time.Time{}
+				} else if since.IsZero() {
+					since = time.Now()
+				} else if time.Since(since) > vfC13StuckGrace {
+					hang, stuck = "the call has not returned although the caller's context is cancelled and every execution goroutine has finished: nothing can wake it any more", true
+					break wait
+				}
+			}
+			close(r.hold)
+			r.nodes.Wait()
 		}
 		// the caller has its result
-		r.mu.Lock()
-		class, ea := vfC13E2EErr(rerr)
-		if class == "canceled" || class == "deadline" {
-			r.noteExpiredLocked()
+		if !stuck {
+			r.mu.Lock()
+			class, ea := vfC13E2EErr(rerr)
+			if class == "canceled" || class == "deadline" {
+				r.noteExpiredLocked()
+			}
+			r.log = append(r.log, vfC13Ev{Ev: "return", N: -1, H: ea, X: class})
+			r.mu.Unlock()
 		}
-		r.log = append(r.log, vfC13Ev{Ev: "return", N: -1, H: ea, X: class})
-		r.mu.Unlock()
 		cancel()
 		// settle, event based: the slow node has sent its answer, and every execution goroutine of
 		// the statement has ended - whatever they still do for the statement is in the trace
@@ -486,8 +547,7 @@ func TestVfC13E2E(t *testing.T) {
 				}
 			}
 		}
-		hang := ""
-		if cfgm.K > 0 {
+		if cfgm.K > 0 && !stuck {
 			deadline := time.Now().Add(5 * time.Second)
 			for strings.Contains(vfGoroutineDump(), "(*queryExecutor).run") {
 				if time.Now().After(deadline) {
@@ -497,6 +557,7 @@ func TestVfC13E2E(t *testing.T) {
 				time.Sleep(100 * time.Microsecond)
 			}
 		}
+		cleanup()
 		vfC13E2ERuns.Delete(id)
 		r.mu.Lock()
 		// hosts the round robin did not get to offer
@@ -508,7 +569,7 @@ func TestVfC13E2E(t *testing.T) {
 		vfC13Write(w, begin, r.log)
 		sum := vfC13Summary{Id: id, Mode: "e2e", Policy: r.polName, Events: len(r.log)}
 		r.mu.Unlock()
-		sum.Hang = hang
+		sum.Hang, sum.Stuck = hang, stuck
 		sb, _ := json.Marshal(sum)
 		fmt.Printf("VFC13SUM %s\n", sb)
 	}
